@@ -33,6 +33,7 @@ type SourceRunner struct {
 	job                 proto.Job
 	watermarker         *wmark.Watermarker
 	watermarkTicker     *time.Ticker
+	watermarkInterval   time.Duration
 	clock               clocks.Clock
 	isHalting           atomic.Bool
 	stopLoop            context.CancelFunc      // Signal to stop the event loop if running
@@ -86,6 +87,7 @@ func New(params NewParams) *SourceRunner {
 		job:                 params.Job,
 		watermarker:         &wmark.Watermarker{},
 		watermarkTicker:     time.NewTicker(math.MaxInt64), // initialize with ticker that never ticks
+		watermarkInterval:   time.Millisecond * 200,
 		userHandler:         params.UserHandler,
 		checkpointBarrier:   make(chan *workerpb.CheckpointBarrier, 1),
 		Logger:              log,
@@ -198,7 +200,6 @@ func (r *SourceRunner) HandleDeploy(ctx context.Context, msg *workerpb.DeploySou
 		panic("exactly one source required")
 	}
 
-	r.watermarkTicker = time.NewTicker(time.Millisecond * 200)
 	r.verifRetune()
 
 	deploymentCtx, cancel := context.WithCancel(context.Background())
@@ -246,6 +247,11 @@ func (r *SourceRunner) processEvents(ctx context.Context) error {
 			if err := r.sourceReader.AssignSplits(splits); err != nil {
 				return err
 			}
+			// Splits are assigned once every member of the assembly has been
+			// deployed. Watermarks must not be sent earlier: an operator that is
+			// still loading its state rejects them and the error stops this runner.
+			r.watermarkTicker.Stop()
+			r.watermarkTicker = time.NewTicker(r.watermarkInterval)
 			if len(splits) > 0 {
 				if r.sourceChannel == nil {
 					return fmt.Errorf("sourceChannel is nil")
